@@ -127,7 +127,11 @@ func c17RunSize(b core.Batch, r *core.Recorder) {
 		n, _ := new(big.Int).SetString(s[:len(s)-1], 10)
 		want := new(big.Int).Mul(n, big.NewInt(c17units[s[len(s)-1]]))
 		if !want.IsInt64() || want.Int64() != int64(got) {
-			r.Violation("C17", "C17:bytesize:accepted-value-is-not-digits-times-unit:overflow", fmt.Sprintf("Parse(%q) = %d, digits x unit = %s", s, int64(got), want), cs, nil)
+			cls := "wrong-value"
+			if !want.IsInt64() {
+				cls = "overflow"
+			}
+			r.Violation("C17", "C17:bytesize:accepted-value-is-not-digits-times-unit:"+cls, fmt.Sprintf("Parse(%q) = %d, digits x unit = %s", s, int64(got), want), cs, nil)
 		}
 	}
 	var rec func(cur string, d int)
@@ -316,6 +320,9 @@ func c17RunRoundtrip(b core.Batch, r *core.Recorder) {
 // ---- (c) overrides --------------------------------------------------------------------------------
 
 type c17ovIn struct {
+	// Before: base values the configuration file holds before the process with the flags starts (applied and saved
+	// by an earlier flag-less process), so that the file differs from the flags' built-in defaults
+	Before  map[string]any   `json:"file_values_before,omitempty"`
 	Flags   []string         `json:"flags"`
 	Updates []map[string]any `json:"updates"`
 }
@@ -419,10 +426,25 @@ func c17RunOverride(b core.Batch, r *core.Recorder) {
 			json.Unmarshal(raw, &u)
 			in.Updates = append(in.Updates, u)
 		}
+		if i%3 == 1 {
+			// flags given with exactly their built-in default, over a file that says something else
+			in.Before = map[string]any{"proxy.listen": ":5555", "logging.max_backups": 9, "webserver.listen": "localhost:7777", "cache.file.dir": "var/elsewhere/"}
+			in.Flags = []string{"--listen=:9999", "--log-file-max-backups=3", "--webserver-listen=localhost:8080", "--cache-dir=var/cache/"}
+			overridden = map[string]any{"proxy.listen": ":9999", "logging.max_backups": int64(3), "webserver.listen": "localhost:8080", "cache.file.dir": "var/cache/"}
+		}
 		if !r.Case(id, in) {
 			continue
 		}
 		r.Eval(1)
+		if in.Before != nil {
+			pre := c17ovIn{Updates: []map[string]any{cfgNest(in.Before)}}
+			praw, _ := json.Marshal(pre)
+			os.WriteFile("ov-input.json", praw, 0o644)
+			if pres, _, err := c17spawn(wd, "cfg-override", "ov-input.json"); err != nil || pres["values"] == nil {
+				r.NotJudged("cannot-prepare-file-values")
+				continue
+			}
+		}
 		raw, _ := json.Marshal(in)
 		os.WriteFile("ov-input.json", raw, 0o644)
 		res, stderr, err := c17spawn(wd, "cfg-override", "ov-input.json")
@@ -462,7 +484,11 @@ func c17RunOverride(b core.Batch, r *core.Recorder) {
 		for prop, ov := range overridden {
 			base, updated := lastBase[prop]
 			fv := fileVals[prop]
-			if !updated && fmt.Sprint(defaults[prop]) == fmt.Sprint(ov) {
+			baseBefore := defaults[prop]
+			if bv, ok := in.Before[prop]; ok {
+				baseBefore = cfgNorm(bv)
+			}
+			if !updated && fmt.Sprint(baseBefore) == fmt.Sprint(ov) {
 				continue // the override happens to equal the base value the file holds anyway
 			}
 			// what the file should hold: the updated base value if an update addressed it, else the default
@@ -532,7 +558,7 @@ func init() {
 		Level: "exploration",
 		Rule: "sizes: Parse(String(b)) == b for 22 boundary values and seeded random byte counts (arbitrary, not only unit multiples); every string up to <depth> symbols over {0,1,9,B,K,M,G,T,b,k,SP,-,.,x} plus 16 long/odd strings through Parse under recover: accepted => digits+unit form (bare digits not judged) and value = digits x unit in big-integer arithmetic. " +
 			"file round trip: seeded valid configurations over every field (arbitrary byte counts, durations down to 1 ns and up to the maximum, levels with offsets, strings with quotes/newlines/non-ASCII, partial documents) applied through UpdatePartialFromConfig and loaded by a fresh process, compared property by property. " +
-			"overrides: a fresh process applies reservoir's own flags (log level, listen addresses, cache dir, log file settings), then 1-4 API updates touching overridden and other properties: effective values, live logger level, file contents and a flag-less reload are checked. Non-trivial = distinct value / accepted string / configuration / override history.",
+			"overrides: a fresh process applies reservoir's own flags (log level, listen addresses, cache dir, log file settings; every third history: flags given with exactly their built-in defaults over a file that holds other values), then 1-4 API updates touching overridden and other properties: effective values, live logger level, file contents and a flag-less reload are checked. Non-trivial = distinct value / accepted string / configuration / override history.",
 		Assumptions: []string{"bare digit strings (no unit) are not judged", "configurations the update path rejects are C18's subject and are not judged here"},
 		Plan:        c17Plan,
 		Run:         c17Run,
